@@ -236,6 +236,26 @@ func (s *Sim) call(c int, op Op) OpResult {
 	return r
 }
 
+// send/recv: a call split in two, so that two clients can be inside API
+// calls at the same time (Storm).
+func (s *Sim) send(c int, op Op) {
+	cl := s.clients[c]
+	cl.done = false
+	b, _ := json.Marshal(op)
+	writeFrame(cl.cmdW, b)
+}
+
+func (s *Sim) recv(c int, what string) OpResult {
+	cl := s.clients[c]
+	s.waitFor(func() bool { return cl.done }, what)
+	rb, ok := readFrame(cl.resR)
+	var r OpResult
+	if ok {
+		json.Unmarshal(rb, &r)
+	}
+	return r
+}
+
 func (s *Sim) settle() {
 	s.call(CBarrier, Op{K: "Barrier"})
 	s.waitFor(func() bool { return s.arrived == s.spawned }, "spawned jobs reach their begin gate")
@@ -386,6 +406,25 @@ func (s *Sim) exec(st stepRef) {
 			if op.V != 3 {
 				s.res.Count("fault_corrupt_capture", 1)
 			}
+		}
+		if op.K == "Storm" {
+			// more concurrent on-demand conversions than the converter has processes,
+			// and a converter reset while some of them wait for a process: two API
+			// clients at the same time, in real time (the converter is slowed down
+			// for the duration) — the one step kind that is not one-actor-at-a-time;
+			// only liveness is judged afterwards (C09 plans, run indices outside
+			// the determinism probe)
+			slow := s.scratch + "/vconv/slowmode"
+			os.WriteFile(slow, nil, 0o644)
+			s.send(CView, Op{K: "StormData", V: op.V, Conv: op.Conv})
+			time.Sleep(40 * time.Millisecond)
+			s.send(CMut, Op{K: "ResetConv", Conv: op.Conv})
+			s.recv(CMut, "converter reset during a conversion storm")
+			s.recv(CView, "conversion storm")
+			os.Remove(slow)
+			s.settle()
+			s.res.Count("fault_conversion_storm_with_reset", 1)
+			break
 		}
 		if (op.K == "OpenView" || op.K == "ReadView") && !s.plan.NoOracle {
 			// the same searches at every read of a view (stability), and searches
